@@ -756,6 +756,12 @@ pub fn run(ctx: &Ctx) -> Outcome {
     let sched = schedule_wakeup(ctx, deadline, &mut out);
     let parked = run_parked(&mut out);
     let resumed = run_resumed(&mut out) + run_resumed_accounting(&mut out);
+    // the LISTENER side (scripted client, link flows sent before the application accepted the link)
+    let (l_exec, l_states) = crate::c07_lsn::part_l(ctx, deadline + Duration::from_secs(60), &mut out);
+    executions += l_exec;
+    states += l_states;
+    transitions += crate::c07_lsn::last_transitions();
+    truncated |= out.coverage.get("listener_side_complete") == Some(&json!(false));
     out.set("resumed_link_scenarios", resumed);
     out.set("parked_delivery_scenarios", parked);
     out.set("states", states.max(1));
@@ -856,6 +862,9 @@ fn replay(p: &std::path::Path, mut out: Outcome) -> Outcome {
     let s = std::fs::read_to_string(p).unwrap_or_default();
     let j: serde_json::Value = serde_json::from_str(&s).unwrap_or_default();
     let r = &j["replay"];
+    if crate::c07_lsn::replay(r, &mut out) {
+        return out;
+    }
     if r["kind"] == "history" {
         let idc = r["idc"].as_u64().unwrap_or(0) as u32;
         let evs: Vec<Ev> = r["events"].as_array().map(|a| a.iter().filter_map(|x| x.as_u64()).map(|i| ALPHABET[i as usize]).collect()).unwrap_or_default();
